@@ -26,3 +26,4 @@ CFG = dict(
 CFG["rule"] += ' Added after independently written breaking changes: Source faults are sticky or one-shot (the error comes from ONE Read call, as with bufio.Reader), alone or together with data; the encrypting direction is covered too (a failing plaintext source must fail the ciphertext stream).'
 CFG["fuzz"] = [dict(target="FuzzTamper", seconds=90)]
 CFG["technique"] += " + coverage-guided native fuzzing of the same property in the thorough tier (go test -fuzz over rapid's bit stream)"
+CFG["rule"] += ' Unwrap callbacks also answer with an error AND 32 key bytes (zeroed, or another key): the error is the answer, nothing may be accepted.'
